@@ -189,6 +189,7 @@ func runC01(p *P, r *R) {
 	})
 	c01FreshMemory(p, r, fr)
 	c01Windows(p, r, H)
+	c01NoSpareSlices(p, r)
 	abaRule(p, r, "R01.9")
 	// R01.10 nobody but the holder touches a slot header: a chain walker does not use a slice's header after it gave the slice back
 	linkReadBeforeRecycle(p, r, "R01.10")
@@ -710,4 +711,90 @@ func flatSlice(v ssa.Value) (base ssa.Value, lo, hi lin, hasHi, ok bool) {
 		return b2, lo.add(lo2, 1), hi, hasHi, true
 	}
 	return sl.X, lo, hi, hasHi, true
+}
+
+// c01NoSpareSlices (R01.14): done() publishes every written slice's header — including the link of the write slice to
+// whatever follows it — *before* it splits the unused tail off and recycles it. That is only harmless because the
+// writers never leave a wholly unused slice behind the write slice: each allocation asks for exactly the bytes that
+// remain. The rule first re-establishes the hazard (an update() that can run before splitFromWrite in done()) and,
+// while it exists, requires every allocation request of a writer that appends a caller-supplied byte slice to equal
+// len(data) minus the count already written (compared as linear terms). Otherwise the peer follows a published link
+// into a slice that was recycled: it is freed twice and ends up with two owners.
+func c01NoSpareSlices(p *P, r *R) {
+	dn := p.fn("(*linkedBuffer).done")
+	if dn == nil {
+		r.fail("R01.14", "anchor (*linkedBuffer).done", "", "not found")
+		return
+	}
+	hazard := false
+	for _, ui := range findInstrs(dn, p.mCall("(*bufferSlice).update")) {
+		for _, si := range findInstrs(dn, p.mCall("(*sliceList).splitFromWrite")) {
+			if p.reaches(ui, si, nil) {
+				hazard = true
+			}
+		}
+	}
+	if !hazard {
+		r.note("R01.14: done() splits the unused tail off before it publishes the headers (or never splits): writers may over-allocate")
+		r.count("R01.14", "hazard absent: nothing to require", 1, 1)
+		return
+	}
+	n := 0
+	for _, f := range p.fnList {
+		allocs := findInstrs(f, p.mCall("(*linkedBuffer).alloc"))
+		if len(allocs) == 0 {
+			continue
+		}
+		// the caller-supplied bytes: a []byte parameter whose len() is taken
+		var lenData ssa.Value
+		allInstrs(f, func(in ssa.Instruction) {
+			if c, ok := isBuiltinCall(in, "len"); ok {
+				if prm, isP := c.Call.Args[0].(*ssa.Parameter); isP && isByteSlice(prm.Type()) {
+					lenData = c
+				}
+			}
+		})
+		if lenData == nil {
+			continue // byte-at-a-time writers ask for a constant
+		}
+		ld := symLin(lenData, 0)
+		isLen := func(v ssa.Value) bool { return symLin(v, 4).equal(ld) }
+		for _, ai := range allocs {
+			n++
+			a := symLin(ai.(*ssa.Call).Call.Args[1], 6)
+			ok, detail := false, ""
+			// written so far: a value X known to be < len(data) at this point, or nothing written yet
+			for _, fct := range factsAt(ai.Block()) {
+				b, isB := fct.Cond.(*ssa.BinOp)
+				if !isB {
+					continue
+				}
+				for _, x := range []ssa.Value{b.X, b.Y} {
+					if rel := relOn(fct.Cond, fct.Truth, func(v ssa.Value) bool { return v == x }, isLen); rel == "<" {
+						if a.equal(ld.add(symLin(x, 6), -1)) {
+							ok = true
+						} else {
+							detail = "asks for " + a.String() + " where len(data) - written = " + ld.add(symLin(x, 6), -1).String()
+						}
+					}
+				}
+			}
+			if !ok && detail == "" {
+				// before anything was written: the request is len(data) minus the initial count (0)
+				first := true
+				for _, ap := range findInstrs(f, p.mCall("(*bufferSlice).append")) {
+					if p.reaches(ap, ai, nil) {
+						first = false
+					}
+				}
+				if first && (a.equal(ld) || func() bool { d := a.add(ld, -1); _, isC := d.isConst(); return isC || len(d.k) == 1 }()) {
+					ok = true
+				} else {
+					detail = "asks for " + a.String()
+				}
+			}
+			r.ob("R01.14", p.fname(f)+": allocation request #"+itoa(int64(n))+" covers exactly the bytes that remain to be written (no wholly unused slice is left behind the write slice)", p.ipos(ai), ok, true, "%s", detail)
+		}
+	}
+	r.count("R01.14", "allocation requests of slice writers", n, 2)
 }
